@@ -15,6 +15,7 @@
 package blockfetch
 
 import (
+	"bytes"
 	"context"
 	"errors"
 	"fmt"
@@ -435,6 +436,12 @@ func (c *Client) GetBlock(point pcommon.Point) (ledger.Block, error) {
 			return nil, protocol.ErrProtocolShuttingDown
 		}
 		block = b
+	case <-c.batchDoneChan:
+		// The server closed the batch without sending a block
+		c.releaseBusy(token)
+		return nil, errors.New(
+			"block-fetch: batch completed without a block",
+		)
 	case <-protocolDone:
 		c.releaseBusy(token)
 		return nil, protocol.ErrProtocolShuttingDown
@@ -442,15 +449,39 @@ func (c *Client) GetBlock(point pcommon.Point) (ledger.Block, error) {
 	// Wait for BatchDone before returning to ensure the protocol state machine
 	// completes the batch properly (transitions back to Idle state).
 	// handleBatchDone signals batchDoneChan in GetBlock mode instead of unlocking.
-	select {
-	case <-c.batchDoneChan:
-		// BatchDone was processed successfully
-		c.releaseBusy(token)
-		return block, nil
-	case <-protocolDone:
-		// Shutdown while waiting for BatchDone
-		c.releaseBusy(token)
-		return nil, protocol.ErrProtocolShuttingDown
+	// Keep draining blockChan meanwhile: a server that streams more than the
+	// one requested block must not wedge the message handler.
+	extraBlocks := 0
+	for {
+		select {
+		case _, ok := <-c.blockChan:
+			if !ok {
+				c.releaseBusy(token)
+				return nil, protocol.ErrProtocolShuttingDown
+			}
+			extraBlocks++
+		case <-c.batchDoneChan:
+			// BatchDone was processed successfully
+			c.releaseBusy(token)
+			if extraBlocks > 0 {
+				return nil, fmt.Errorf(
+					"block-fetch: received %d blocks for a single-block request",
+					extraBlocks+1,
+				)
+			}
+			if !bytes.Equal(block.Hash().Bytes(), point.Hash) {
+				return nil, fmt.Errorf(
+					"block-fetch: received block %x does not match requested block %x",
+					block.Hash().Bytes(),
+					point.Hash,
+				)
+			}
+			return block, nil
+		case <-protocolDone:
+			// Shutdown while waiting for BatchDone
+			c.releaseBusy(token)
+			return nil, protocol.ErrProtocolShuttingDown
+		}
 	}
 }
 
